@@ -507,12 +507,15 @@ def setterpure(pid):
 
 def setterkind(pid):
     """R-SETTERKIND: the public metadata setters (set_state_bits, set_storage_clsid, set_created_time,
-    set_modified_time, touch), the closures they build and the private helpers only they call test an entry's object
-    type against Stream only.  The property treats storages and the root alike (`CLSIDs set on storages or the root`,
-    `times set on storages or the root`); a test against Storage or Root inside a setter separates the two, so one of
-    them silently keeps its old value while the call answers Ok."""
+    set_modified_time, touch), the closures they build and the private helpers only they call treat storages and the
+    root alike (`CLSIDs set on storages or the root`, `times set on storages or the root`): whatever they do for an
+    entry of type Storage - the stores, the calls, the refusals - they do for the root, and the reverse.  Decided per
+    function as: the statements reachable when the entry's type is assumed to be Storage are the statements
+    reachable when it is assumed to be Root (a test `== Storage` written for `!= Stream` drops the root's times while
+    the call answers Ok; `matches!(t, Storage | Root)` does not)."""
     def run(ctx):
-        res = RuleResult("R-SETTERKIND(%s)" % pid, "inside the public metadata setters, their closures and the helpers only they call, every object-type test is against ObjType::Stream (storages and the root are never told apart)")
+        from cfg import reach_flag_aware
+        res = RuleResult("R-SETTERKIND(%s)" % pid, "inside the public metadata setters, their closures and the helpers only they call, the statements reachable for an entry of type Storage and for the root are the same")
         fns = ctx.fx.fns
         roots = [f for f in fns.values() if re.match(r"^CompoundFile::<F>::(set_\w+|touch\w*)$", f.path)]
         inset = {f.path for f in roots}
@@ -536,24 +539,51 @@ def setterkind(pid):
         for p in sorted(inset):
             f = fns[p]
             g = None
+            v = None
+            per = {"Storage": set(), "Root": set()}
+            tests = []
             for b, blk in enumerate(f.blocks):
                 if blk["term"]["t"] != "switch" or blk["cleanup"]:
                     continue
                 g = g or guards(ctx, f)
+                v = v or view(ctx, f)
                 t = blk["term"]
                 vals = [str(x) for x, _ in t["arms"]] + ["otherwise"]
-                seen = set()
-                for k in range(len(vals)):
+                for k, tgt in enumerate(f.succ(b)):
                     for a in g.describe_all(b, vals[k], vals):
-                        m = re.search(r"\.obj_type is (?:not )?ObjType::(\w+)$", a)
-                        if not m or a in seen:
+                        m = re.search(r"\.obj_type is (not )?ObjType::(\w+)$", a)
+                        if not m:
                             continue
-                        seen.add(a)
-                        n += 1
-                        if m.group(1) != "Stream":
-                            res.fail(Finding(res.rule, "R-SETTERKIND/%s/%s" % (p, m.group(1)), "the setter tests the object type against ObjType::%s (%s): storages and the root are told apart, so a value set on one of them is silently dropped or refused" % (m.group(1), a[-60:]), f, t["span"]))
-                        else:
-                            res.ok({"function": p, "test": a[-50:]}, nontrivial=True)
+                        if a not in tests:
+                            tests.append(a)
+                        for kind in per:
+                            contradicts = (m.group(1) and m.group(2) == kind) or (not m.group(1) and m.group(2) != kind)
+                            if contradicts:
+                                per[kind].update(v.pg.edge_node(b, tgt))
+            if not tests:
+                continue
+            n += len(tests)
+            rs = {}
+            for kind, barrier in per.items():
+                r_ = reach_flag_aware(f, v.pg, [v.pg.entry()], barrier)
+                rs[kind] = {x for x in r_ if x[0] in ("s", "t") and not (x[0] == "t" and f.blocks[x[1]]["term"]["t"] in ("switch", "goto"))}
+            diff = rs["Storage"] ^ rs["Root"]
+            # statements without an effect of their own (storage markers, the reads that feed a test) do not count
+            real = []
+            for x in sorted(diff):
+                if x[0] == "t":
+                    real.append(x)
+                else:
+                    st = f.blocks[x[1]]["stmts"][x[2]]
+                    if st["s"] == "assign" and (st["place"]["proj"] or st["place"]["local"] == 0):
+                        real.append(x)
+            if real:
+                x = real[0]
+                sp = f.blocks[x[1]]["term"]["span"] if x[0] == "t" else f.blocks[x[1]]["stmts"][x[2]]["span"]
+                only = "Storage" if x in rs["Storage"] else "Root"
+                res.fail(Finding(res.rule, "R-SETTERKIND/%s/storage-and-root-told-apart" % p, "the setter does at line %d something it does only for an entry of type %s (tests: %s): storages and the root are told apart, so a value set on one of them is silently dropped or refused" % (sp["line"], only, "; ".join(a[-40:] for a in tests[:3])), f, sp))
+            else:
+                res.ok({"function": p, "tests": [a[-50:] for a in tests[:4]], "same_for_storage_and_root": True}, nontrivial=True)
         res.floor("object-type tests in setters", n, ctx.table("floors").get("setterkind_tests", 0))
         res.notes.append("setter functions: " + ", ".join(sorted(inset)))
         return res
